@@ -45,6 +45,8 @@ func ruleAccepts(rule string, proof []byte) bool {
 		return len(proof) > 0 && proof[0]&1 == 1
 	case "fabsim":
 		return false // only garbage proofs are generated for it
+	case "none":
+		return false // no rule is bound to the appchain (it was logged out): nothing can be verified for it
 	default:
 		return true
 	}
@@ -169,6 +171,9 @@ func (s *scn) observeMasterRules(h uint64) {
 	}
 	rcs := s.reps[0].viewCall(q...)
 	for i, c := range s.chains {
+		if c.loggedOut {
+			continue // "logged out is final": the rules were cleared with the appchain
+		}
 		kind := "unknown"
 		if i < len(rcs) && rcs[i] != nil && rcs[i].Status == pb.Receipt_SUCCESS {
 			var ru struct {
@@ -265,3 +270,38 @@ func (s *scn) deployBitRule() *types.Address {
 }
 
 var _ = constant.InterchainContractAddr
+
+// applyChainLogout (C03: "against appchains whose rule was changed, logged out or never registered"): the appchain's admin
+// asks for its logout and every administrator approves, in blocks of their own. The logout clears the chain's rules, so
+// from then on no proof can be verified for the chain: every IBTP it would have to vouch for — requests of its services,
+// receipts of requests sent to them, in-flight ones included — is invalid by the statement's rule and must fail without
+// effect. At most one chain per run, and never the last one.
+func (s *scn) applyChainLogout(st CStep) {
+	live := 0
+	for _, c := range s.chains {
+		if !c.loggedOut {
+			live++
+		}
+	}
+	if live < 2 || live < len(s.chains) {
+		return
+	}
+	c := s.chains[st.A%len(s.chains)]
+	if !s.govApprove(c.admin, constant.AppchainMgrContractAddr, "logout-appchain/chainadmin/"+c.id, c.id, "LogoutAppchain", pb.String(c.id), pb.String("reason")) {
+		return
+	}
+	rcs := s.reps[0].viewCall(viewTx(s.users[0], constant.AppchainMgrContractAddr, "GetAppchain", pb.String(c.id)))
+	if len(rcs) != 1 || rcs[0] == nil || rcs[0].Status != pb.Receipt_SUCCESS {
+		return
+	}
+	var o struct {
+		Status string `json:"status"`
+	}
+	_ = json.Unmarshal(rcs[0].Ret, &o)
+	s.logf("  appchain %s after its approved logout: %s", c.id, o.Status)
+	if o.Status != "forbidden" {
+		return
+	}
+	c.loggedOut, c.rule, c.ruleAt = true, "none", s.height
+	s.res.Count("probe_appchain_logged_out_with_traffic_in_flight")
+}
